@@ -61,6 +61,12 @@ Json gen(sim::Rng& rng, int tier)
     p["late_client"] = rng.chance(0.5);
     // in part of the runs the application calls the blocking serve() on a thread of its own instead of serveThreaded()
     p["blocking_serve"] = rng.chance(0.3);
+    // the kernel may fail an accept (a client that gave up while it waited in the backlog): the acceptor goes on
+    if (rng.chance(0.3)) p["accept_fail_permille"] = static_cast<int>(50 + rng.below(400));
+    // a connection that knocks at the very moment of the shutdown (the acceptor finds it and the shutdown notification in one poll)
+    if (p.num("shutdown_at_us", -1) >= 0 && rng.chance(0.5)) p["knock_before_shutdown_us"] = static_cast<int>(rng.below(120));
+    // shutdown() called from a request handler (on a worker thread) instead of from the application's main thread
+    p["shutdown_from_handler"] = rng.chance(0.2);
     gen_sched(rng, p, 4000, true);
     return p;
 }
@@ -109,10 +115,29 @@ void run(const Json& plan)
     Rest::Routes::Put(*router, "/item/:tag", reply("item"));
     Rest::Routes::Delete(*router, "/item/:tag", reply("item"));
     Rest::Routes::Get(*router, "/onlyget/:tag", reply("onlyget"));
+    // GET /shutdown/:tag shuts the endpoint down from inside the handler
+    static std::atomic<int> handler_shutdown_done;
+    handler_shutdown_done.store(0);
+    static Http::Endpoint* shutdown_target;
+    static std::string handler_shutdown_error;
+    handler_shutdown_error.clear();
+    Rest::Routes::Get(*router, "/shutdown/:tag", [](const Rest::Request&, Http::ResponseWriter resp) {
+        try {
+            shutdown_target->shutdown();
+        } catch (const std::exception& e) {
+            sim::IgnoreScope ig;
+            handler_shutdown_error = e.what();
+        }
+        handler_shutdown_done.store(1, std::memory_order_release);
+        resp.send(Http::Code::Ok, "bye");
+        return Rest::Route::Result::Ok;
+    });
 
     auto ep = std::make_unique<Http::Endpoint>(Address("127.0.0.1", Port(port)));
     ep->init(Http::Endpoint::options().threads(workers));
     ep->setHandler(router->handler());
+    shutdown_target = ep.get();
+    simk::faults().accept_fail_p = static_cast<double>(std::max<i64>(0, std::min<i64>(900, plan.num("accept_fail_permille", 0)))) / 1000.0;
     const bool blocking = plan.flag("blocking_serve");
     std::thread server;
     bool serve_returned = false;
@@ -174,6 +199,15 @@ void run(const Json& plan)
     }
 
     i64 shutdown_at = plan.num("shutdown_at_us", -1);
+    std::shared_ptr<actors::Client> knock;
+    if (shutdown_at >= 0 && plan.has("knock_before_shutdown_us")) {
+        std::vector<actors::Step> ks { httpw::step(actors::Step::Connect), httpw::send_step(actors::http_request("GET", "/echo/7", { { "Host", "sim" } }, "")),
+                                        httpw::step(actors::Step::Await, 20 * 1000000LL, 1), httpw::step(actors::Step::Close) };
+        knock = std::make_shared<actors::Client>(97, port, ks);
+        knock->custom_net = true;
+        knock->to_server.latency_ns = knock->from_server.latency_ns = 20 * 1000;
+        knock->start(std::max<i64>(0, shutdown_at - 20 - std::max<i64>(0, plan.num("knock_before_shutdown_us", 0))) * 1000);
+    }
     const std::function<bool()> all_done = [&] {
         for (auto& c : clients)
             if (!c->finished()) return false;
@@ -202,7 +236,10 @@ void run(const Json& plan)
         auto& cl = clients[i];
         if (cl->reader.broken) r.violation("C09.response:malformed", "client " + std::to_string(i) + " received bytes that are not an HTTP response: " + cl->reader.broken_why);
         size_t n = cl->responses();
-        if (!interrupted && cl->st.connected && n != sent[i].size())
+        // (a connection that the kernel aborted before the acceptor got it - the injected accept failure - gets nothing)
+        const bool aborted_at_accept = simk::faults().accept_fail_p > 0 && cl->st.reset && n == 0;
+        if (aborted_at_accept) r.probe("aborted-at-accept");
+        if (!interrupted && cl->st.connected && !aborted_at_accept && n != sent[i].size())
             r.violation("C09.response:count", "client " + std::to_string(i) + " sent " + std::to_string(sent[i].size()) + " requests and received " + std::to_string(n) + " responses");
         if (n > cl->st.send_done.size()) r.violation("C09.response:unsolicited", "client " + std::to_string(i) + " received more responses than it sent requests");
         for (size_t k = 0; k < n && k < sent[i].size(); ++k) {
@@ -224,6 +261,18 @@ void run(const Json& plan)
     // ---- oracle 3: shutdown returns, threads terminate, destruction does not deadlock
     phase = "shutdown";
     int before = sim::live_thread_count();
+    if (plan.flag("shutdown_from_handler") && !blocking) {
+        // a client asks the server to shut itself down; the handler calls shutdown() on its worker thread
+        r.probe("shutdown-from-handler");
+        simk::faults().accept_fail_p = 0;
+        std::vector<actors::Step> ss { httpw::step(actors::Step::Connect), httpw::send_step(actors::http_request("GET", "/shutdown/1", { { "Host", "sim" } }, "")),
+                                        httpw::step(actors::Step::Await, 200 * 1000000LL, 1), httpw::step(actors::Step::Close) };
+        auto sc = std::make_shared<actors::Client>(96, port, ss);
+        sc->start(0);
+        for (int i = 0; i < 3000 && handler_shutdown_done.load(std::memory_order_acquire) == 0; ++i) sim::sleep_ns(i < 500 ? 100 * 1000 : 1000 * 1000);
+        if (handler_shutdown_done.load(std::memory_order_acquire) == 0) r.probe("shutdown-request-not-served");
+        else if (!handler_shutdown_error.empty()) r.violation("C09.shutdown:raises-in-handler", "shutdown() called from a request handler raised: " + handler_shutdown_error);
+    }
     ep->shutdown();
     if (blocking) {
         // shutdown() from another thread makes the blocking serve() return
